@@ -18,6 +18,13 @@ subprocess.run(["rm", "-rf", wt])
 os.makedirs("/tmp/seedrun", exist_ok=True)
 if subprocess.run(["git", "-C", "/repo", "worktree", "add", "-q", "--detach", wt, "HEAD"]).returncode != 0:
     sys.exit("cannot create scratch worktree")
+# seeds that touch a file read by a translator regenerate lean/Pun/Gen: they take the lock exclusively,
+# every other seed run shares it, so concurrent keep_seed runs never see each other's generated files
+import fcntl
+TRANSLATED = ("intervals/arithmetic.py", "pba/params.py", "pba/pbox_free.py", "calibration/tmcmc.py",
+              "nlp/language_parsing.py", "intervals/methods.py")
+_lk = open("/tmp/seedrun/.lock", "w")
+fcntl.flock(_lk, fcntl.LOCK_EX if any(t in (d / "patch.diff").read_text() for t in TRANSLATED) else fcntl.LOCK_SH)
 results = []
 try:
     if subprocess.run(["git", "-C", wt, "apply", str(d / "patch.diff")]).returncode != 0:
